@@ -40,6 +40,7 @@ import (
 
 func TestMain(m *testing.M) {
 	vkit.SilenceLog()
+	rsSweep()
 	vkit.MainWith(m, "C06", func() { encCleanup(); rsCleanup() })
 }
 func TestProp(t *testing.T)   { vkit.RunAll(t) }
@@ -115,7 +116,8 @@ type ConcCase struct {
 
 var evKinds = []string{"split", "split", "split", "merge", "merge", "add", "promote", "remove", "transfer", "term", "beat"}
 
-func genBase(t *rapid.T, maxEv int, faults bool) Case {
+// genBase: faults = 0 no fail/restart/flush ops, otherwise one delivery in faults/7 is preceded by one.
+func genBase(t *rapid.T, minEv, maxEv int, faults int) Case {
 	var c Case
 	c.Stores = rapid.IntRange(3, 6).Draw(t, "stores")
 	c.Collide = rapid.IntRange(0, 5).Draw(t, "collide") == 0
@@ -125,7 +127,7 @@ func genBase(t *rapid.T, maxEv int, faults bool) Case {
 	}
 	// region storage: none 40%, server.go construction switched on 30% / off 30%
 	c.RS = []int{rsNone, rsNone, rsNone, rsNone, rsOn, rsOn, rsOn, rsOff, rsOff, rsOff}[rapid.IntRange(0, 9).Draw(t, "regionStorage")]
-	n := rapid.IntRange(10, maxEv).Draw(t, "nEv")
+	n := rapid.IntRange(minEv, maxEv).Draw(t, "nEv")
 	for i := 0; i < n; i++ {
 		c.Events = append(c.Events, Ev{
 			K: rapid.SampledFrom(evKinds).Draw(t, "kind"),
@@ -175,8 +177,8 @@ func genBase(t *rapid.T, maxEv int, faults bool) Case {
 	}
 	sort.SliceStable(items, func(a, b int) bool { return items[a].key < items[b].key })
 	for _, it := range items {
-		if faults {
-			switch rapid.IntRange(0, 39).Draw(t, "fault") {
+		if faults > 0 {
+			switch rapid.IntRange(0, faults-1).Draw(t, "fault") {
 			case 0, 1, 2, 3:
 				c.Dels = append(c.Dels, Dl{K: "fail", A: rapid.SampledFrom([]int{0, 0, 0, 1, 1, 2}).Draw(t, "failNth")})
 			case 4:
@@ -203,10 +205,18 @@ func genBase(t *rapid.T, maxEv int, faults bool) Case {
 	return c
 }
 
-func genSeq(t *rapid.T) Case { return genBase(t, 80, true) }
+// genSeq: 1 case in ~40 is a long history (200-320 events), long enough for the region
+// storage's automatic flush (the 100th save since the last flush) to happen mid-history.
+func genSeq(t *rapid.T) Case {
+	minEv, maxEv, faults := 10, 80, 40
+	if rapid.IntRange(0, 39).Draw(t, "long") == 1 {
+		minEv, maxEv, faults = 200, 320, 400 // few flushes and restarts, or the save counter never gets there
+	}
+	return genBase(t, minEv, maxEv, faults)
+}
 
 func genConc(t *rapid.T) ConcCase {
-	c := ConcCase{Case: genBase(t, 60, false)}
+	c := ConcCase{Case: genBase(t, 10, 60, 0)}
 	c.Poll = rapid.IntRange(1, 2).Draw(t, "pollers")
 	style := rapid.IntRange(0, 9).Draw(t, "style")
 	left := len(c.Dels)
